@@ -47,6 +47,11 @@ def histories(quick, rng):
     hs.append(("recovery", [{"op": "create"}, P("mv2://a", 1), {"op": "commit"}, P("mv2://b", 2, "bin", 300, 2), {"op": "delete", "frame": 0},
                             P("mv2://c", 3, "text", 120, 3, emb=2), {"op": "abandon"}, {"op": "open"}, P("mv2://d", 4, "bin", 50, 4),
                             {"op": "commit"}, {"op": "close"}]))
+    hs.append(("recovery2", [{"op": "create"}, P("mv2://a", 1), P("mv2://b", 2, "bin", 300, 2), P("mv2://c", 3, "text", 90, 3), {"op": "commit"},
+                             {"op": "delete", "frame": 1}, {"op": "update", "frame": 0, "meta": {"title": 2}}, {"op": "abandon"}, {"op": "open"},
+                             {"op": "close"}]))
+    hs.append(("batch", [{"op": "create"}, {"op": "begin_batch", "skip_sync": True, "no_auto": True}, P("mv2://a", 1), P("mv2://b", 2, "bin", 300, 2),
+                         {"op": "commit_skip"}, {"op": "end_batch"}, P("mv2://c", 3, "text", 90, 3), P("mv2://d", 4, "bin", 50, 4), {"op": "close"}]))
     hs.append(("maintenance", [{"op": "create"}, P("mv2://a", 1, "long", 2600, 1), P("mv2://b", 2, "bin", 400, 2), {"op": "commit"},
                                {"op": "ticket", "seq": 5, "cap": 0}, {"op": "delete", "frame": 0}, {"op": "commit"}, {"op": "vacuum"},
                                P("mv2://c", 3, "text", 80, 3), {"op": "close"}]))
@@ -104,7 +109,7 @@ def record(hname, ops, wd):
     return d, out, lg, reg
 
 
-def enumerate_states(lg, rng, power_budget, base, max_power_points=10**9):
+def enumerate_states(lg, rng, power_budget, base, max_power_points=10**9, scenario=()):
     """Replays the log; every distinct crash directory is written under `base/<digest>/` at once (only digests are kept in
     memory).  Returns ([(call no, call name, op number, kind, variant, phase, digest)], #ops, #mutations, [digests])."""
     ops = fsstate.load_log(lg)
@@ -128,7 +133,18 @@ def enumerate_states(lg, rng, power_budget, base, max_power_points=10**9):
             fsstate.materialise(st, os.path.join(base, dg))
         return dg
 
-    mut_idx = [i for i, op in enumerate(ops) if op["op"] not in ("mark", "flock") and i in in_call and in_call[i][1] != "abandon"]
+    # calls made inside a begin_batch(skip_sync) .. end_batch window promise no durability: no power-loss states there
+    nosync_calls = set()
+    inside = False
+    for k, o in enumerate(scenario):
+        if o.get("op") == "begin_batch" and o.get("skip_sync"):
+            inside = True
+        if inside:
+            nosync_calls.add(k + 1)
+        if o.get("op") == "end_batch":
+            inside = False
+    mut_idx = [i for i, op in enumerate(ops) if op["op"] not in ("mark", "flock") and i in in_call and in_call[i][1] != "abandon"
+               and in_call[i][0] not in nosync_calls]
     power_at = set(mut_idx if len(mut_idx) <= max_power_points else rng.sample(mut_idx, max_power_points))
     for idx, op in enumerate(ops):
         if op["op"] == "mark" and op["text"].startswith("end ") and in_call.get(idx, (0, ""))[1] == "abandon":
@@ -154,7 +170,7 @@ def enumerate_states(lg, rng, power_budget, base, max_power_points=10**9):
         phase = classify(op, wal_end)
         if op["op"] not in ("fsync", "dirsync"):
             out.append((cn, cname, op.get("n", idx), "process", "prefix", phase, keep(fs.process_state())))
-        if power_budget > 0 and idx in power_at:
+        if power_budget > 0 and idx in power_at and cn not in nosync_calls:
             for lab, st in fs.power_states(rng, power_budget):
                 out.append((cn, cname, op.get("n", idx), "power", lab, phase, keep(st)))
     enumerate_states.keep = keep
@@ -280,7 +296,7 @@ def engine(tier, only=None):
         sbase = os.path.join("/dev/shm" if os.path.isdir("/dev/shm") else wd, "vprobe-%d-%s" % (os.getpid(), hname))
         shutil.rmtree(sbase, ignore_errors=True)
         os.makedirs(sbase)
-        states, nops, nmut, uniq = enumerate_states(lg, rng, (2 if quick else 5), sbase, max_power_points=(60 if quick else 400))
+        states, nops, nmut, uniq = enumerate_states(lg, rng, (2 if quick else 5), sbase, max_power_points=(60 if quick else 400), scenario=ops)
         corr = []
         if hname in ("basic", "maintenance") or hname.startswith("random1"):
             # C20: corruptions of the committed, closed file this history ends with
